@@ -113,10 +113,12 @@ pub(crate) fn remove_or_compress_too_old_logfiles_impl(
         log_limit = 1;
     }
 
-    for (index, file) in list_of_log_and_compressed_files(file_spec, infix_filter)
-        .into_iter()
-        .enumerate()
-    {
+    // newest first, irrespective of being compressed or not
+    let mut files = list_of_log_and_compressed_files(file_spec, infix_filter);
+    files.sort_unstable_by_key(|path| file_spec.sort_key(path));
+    files.reverse();
+
+    for (index, file) in files.into_iter().enumerate() {
         #[cfg(feature = "verif_hooks")]
         crate::verif_hooks::point("cleanup.item", Some(&file)).ok();
         if index >= log_limit + compress_limit {
